@@ -139,7 +139,16 @@ def invoke(fn, names_, args, environment, pos):
                     pos,
                 )
         else:
-            values.append(arg.evaluate(environment))
+            try:
+                values.append(arg.evaluate(environment))
+            except RecursionError:
+                # an expression nested too deep: the innermost call or
+                # operator that could not go on is where it begins
+                raise CklRuntimeError(
+                    ValueString("ERROR"),
+                    "Maximum recursion depth exceeded",
+                    pos,
+                )
             names.append(names_[i])
     args_ = Args(pos)
     args_.addArgs(fn.getArgNames())
